@@ -10,7 +10,8 @@ ADDED = {
     'C03': 'Rounds 3-4: committed coverage replays for hierarchical quadrilateral elements of degree 5 and 6 on shifted cells.',
     'C04': 'Rounds 3-4: the location table is single-valued for EVERY element (not only nodal ones); sub-check special: periodic tensor '
            'meshes glued in one, two or three directions and CompositeBasis of two to four bases (numbers 0..N-1 all used, N as counted, '
-           'blocks one after the other, no empty matrix row).',
+           'blocks one after the other, no empty matrix row); bases built on meshes that have served before (discarded operations) or '
+           'come from adaptive refinement.',
     'C05': 'Rounds 3-4: complex systems; prescribed values and data in small units (2^-30).',
     'C06': 'Rounds 3-4: assembly piece by piece over equally large cell sets; hierarchical elements up to p = 5 with full-degree solutions; '
            'Dirichlet set built with the union operator of views; keyword projection on closed facet sets.',
@@ -22,9 +23,11 @@ ADDED = {
     'C10': 'Rounds 3-4: permutation subsets after a whole-mesh evaluation on the same mapping object; normals of prisms from the reference '
            'table; normals of a basis derived with with_element from a basis on an oriented facet set.',
     'C11': 'Rounds 3-4: sub-check large: Delaunay tetrahedral meshes of 300-1000 points through the brute-force oracle, meshes beyond 2^16 '
-           'vertices through a vectorised int64 re-computation; adaptive refinement in the battery of operations on the operand.',
+           'vertices through a vectorised int64 re-computation; adaptive refinement in the battery of operations on the operand; '
+           'the two parts of m @ n (vertex numbers no cell uses) as derived meshes.',
     'C12': 'Rounds 3-4: named boundaries kept by 3-D classes are judged geometrically; operands ending with points their cells do not use '
-           '(part of m @ n); sub-check large (more than 46340 vertices, vectorised predicates).',
+           '(part of m @ n); operands whose tables were read and that were refined adaptively / oriented before (results discarded); '
+           'sub-check large (more than 46340 vertices, vectorised predicates).',
     'C13': 'Rounds 3-4: operand digests; the refined-from mesh used again (back step, uniform step after an adaptive one); marked arrays '
            'naming a cell more than once; two-level uniform steps; a base mesh of isosceles cells with tied longest edges.',
     'C14': 'Rounds 3-4: plain structured grids (reference coordinates recovered exactly); every domain point also asked alone; points moved in '
@@ -35,8 +38,9 @@ ADDED = {
            'solvers compared bit for bit.',
     'C16': 'Rounds 3-4: one threaded form object reused with exchanged trial/test spaces; complex and single-precision forms under threads.',
     'C17': 'Rounds 3-4: boundaries listing an interior facet from both sides (orientation compared as multiset per facet); the '
-           'encode_point_data keyword; the same path written twice; meshes ending with points no cell uses.',
-    'C18': 'Rounds 3-4: restrict with every documented way of stating the selection; sum of the two parts of m @ n; sub-check large '
+           'encode_point_data keyword; the same path written twice; meshes ending with points no cell uses; tags naming an entity twice; '
+           'a second export with the loaded user data handed back after redefining a named set, and after editing the tags in place.',
+    'C18': 'Rounds 3-5: restrict with every documented way of stating the selection and with tags naming cells twice; sum of the two parts of m @ n; sub-check large '
            '(to_meshtri, restrict and + beyond 46340 vertices).',
     'C19': 'Rounds 3-4: Form.block; the bases handed out by split() (also for subset and one-sided bases) interpolate like component bases '
            'with the quadrature of the whole; asm over lists with a raw coefficient vector.',
